@@ -75,11 +75,13 @@ def nested_ap(sc, ndims, split, rng, even=False):
             "ratios": rs}
 
 
-def write(chk, sc, cfgseed, ndims, split, even=False, values=None):
+def write(chk, sc, cfgseed, ndims, split, even=False, values=None, fields=None):
     rng = random.Random(cfgseed)
     cfg_ = gamma.Config.draw(rng, ndims=ndims, payload="tame")
     cfg_.ratios = tuple(sc["ratios"])
     ap = nested_ap(sc, ndims, split, rng, even)
+    if fields:
+        ap["fields"] = list(fields)
     ap["time"] = cfg_.time if cfg_.time is not None else 0.5
     d = os.path.join(chk.tmp_reuse(), "p")
     os.makedirs(os.path.dirname(d))
@@ -91,7 +93,10 @@ def run_one(chk, sc, cfgseed, what):
     if what in ("slice", "sliceplt"):
         return slice3d(chk, sc, cfgseed, plt=(what == "sliceplt"))
     ndims = 3 if what in ("point", "grid", "integral") else (2 if what == "plate" or cfgseed % 3 == 0 else 3)
-    d, ap, cfg_, reg = write(chk, sc, cfgseed, ndims, split=(what != "point" and cfgseed % 2 == 0), even=(what == "integral"))
+    # (validations: one configuration in three has ONE field and one box per level -- one-row, one-column min/max tables)
+    thin = what in ("taste", "read") and cfgseed % 3 == 1
+    d, ap, cfg_, reg = write(chk, sc, cfgseed, ndims, split=(what != "point" and cfgseed % 2 == 0 and not thin), even=(what == "integral"),
+                             fields=["only"] if thin else None)
     before = alpha.tree_digest(d)
     ds = spell.of(d, cfgseed)[0]
     rs = list(sc["ratios"])
